@@ -542,7 +542,7 @@ impl Check for C05 {
         prop_oneof![12 => stream, conn_weight => conn].boxed()
     }
     fn cases(&self, tier: Tier) -> u64 {
-        tier.pick(60_000, 2_000_000)
+        tier.pick(60_000, 10_000_000)
     }
     fn run(&self, case: &Case) -> (Verdict, CaseInfo) {
         let case = match case {
